@@ -7,6 +7,9 @@
     known arguments, and has a selection set exactly when its type is composite;
   * an accepted operation has uniquely named variables, uses only defined variables and leaves no defined variable
     unused; no reachable fragment reaches itself;
+  * accepted arguments (of fields and directives) have unique names, are all defined with values that fit the declared
+    type, and every required argument is given and not null; accepted directives are defined, allowed at their location
+    and well-argued; an accepted fragment spread names a defined fragment whose composite type condition can apply;
   * the verdict is the conjunction of the rule groups.
 
   That the repository accepts exactly the documents this validator accepts is validated per generated document
@@ -61,5 +64,116 @@ theorem accepted_variables (s : Schema) (op : Op) (h : varsOk s op = true) :
 theorem accepted_fragments (s : Schema) (op : Op) (h : fragsOk s op = true) : fragsAcyclic op = true := by
   simp only [fragsOk, Bool.and_eq_true] at h
   exact h.1
+
+/-- the arguments of an accepted field or directive: unique names, every given argument is defined and its value fits
+    the declared type, and every required argument (non-null, no default) is given and is not the literal null -/
+theorem accepted_arguments (s : Schema) (vars : List VarDef) (defs : List ArgDef) (args : List (String × V))
+    (h : argsOk s vars defs args = true) :
+    nodupStr (args.map (·.1)) = true ∧
+    (∀ kv ∈ args, ∃ d ∈ defs, d.name = kv.1 ∧ valueOk s vars 32 d.type d.hasDefault kv.2 = true) ∧
+    (∀ d ∈ defs, d.type.isNonNull = true → d.hasDefault = false → ∃ kv ∈ args, kv.1 = d.name ∧ kv.2 ≠ V.null) := by
+  simp only [argsOk, Bool.and_eq_true, List.all_eq_true] at h
+  obtain ⟨⟨h1, h2⟩, h3⟩ := h
+  refine ⟨h1, ?_, ?_⟩
+  · intro kv hkv
+    have := h2 kv hkv
+    obtain ⟨k, v⟩ := kv
+    simp only at this
+    split at this
+    · rename_i d hd
+      exact ⟨d, List.mem_of_find?_eq_some hd, by have := List.find?_some hd; simpa using this, this⟩
+    · simp at this
+  · intro d hd hnn hdef
+    have := h3 d hd
+    simp only [hnn, hdef, Bool.not_false, Bool.and_self, Bool.not_true, Bool.false_or] at this
+    split at this
+    · simp at this
+    · rename_i kv hnot hkv
+      refine ⟨kv, List.mem_of_find?_eq_some hkv, by have := List.find?_some hkv; simpa using this, ?_⟩
+      intro hnull
+      obtain ⟨k, v⟩ := kv
+      simp only at hnull
+      subst hnull
+      exact hnot k rfl
+    · simp at this
+
+/-- the directives of an accepted location: each is defined, allowed at that location, well-argued, and a directive that
+    is not repeatable occurs at most once -/
+theorem accepted_directives (s : Schema) (vars : List VarDef) (loc : String) (dirs : List Dir)
+    (h : dirsOk s vars loc dirs = true) :
+    ∀ d ∈ dirs, ∃ dd ∈ s.directives, dd.name = d.name ∧ dd.locations.contains loc = true ∧
+      argsOk s vars dd.args d.args = true := by
+  simp only [dirsOk, Bool.and_eq_true, List.all_eq_true] at h
+  intro d hd
+  have := h.1 d hd
+  split at this
+  · rename_i dd hdd
+    simp only [Bool.and_eq_true] at this
+    exact ⟨dd, List.mem_of_find?_eq_some hdd, by have := List.find?_some hdd; simpa using this, this.1, this.2⟩
+  · simp at this
+
+/-- leaf and composite fields of an accepted selection set: a field of a scalar or enum type has no sub-selection, a
+    field of an object, interface or union type has a non-empty one that is itself accepted -/
+theorem accepted_leaf_and_composite (s : Schema) (op : Op) (fuel : Nat) (parent : String) (sels : List Sel)
+    (alias name : String) (args : List (String × V)) (dirs : List Dir) (sub : List Sel)
+    (h : checkSels s op (fuel + 1) parent sels = true) (hm : Sel.field alias name args dirs sub ∈ sels)
+    (hn : name ≠ "__typename") :
+    ∃ pt fd rt, s.type? parent = some pt ∧ fd ∈ pt.fields ∧ fd.name = name ∧ s.type? fd.type.base = some rt ∧
+      argsOk s op.vars fd.args args = true ∧
+      (if isComposite rt.kind then sub ≠ [] ∧ checkSels s op fuel rt.name sub = true else sub = []) := by
+  simp only [checkSels] at h
+  split at h
+  · simp at h
+  · rename_i pt hpt
+    simp only [Bool.and_eq_true, List.all_eq_true] at h
+    have hsel := h.2 _ hm
+    simp only [Bool.and_eq_true] at hsel
+    have hf := hsel.2
+    have hne : (name == "__typename") = false := by simpa using hn
+    simp only [hne, Bool.false_eq_true, if_false] at hf
+    split at hf
+    · simp at hf
+    · rename_i fd hfd
+      have hfd' : pt.fields.find? (·.name == name) = some fd := by
+        split at hfd
+        · simp at hfd
+        · exact hfd
+      simp only [Bool.and_eq_true] at hf
+      obtain ⟨hargs, hrt⟩ := hf
+      split at hrt
+      · simp at hrt
+      · rename_i rt hrtt
+        refine ⟨pt, fd, rt, hpt, List.mem_of_find?_eq_some hfd', by have := List.find?_some hfd'; simpa using this, hrtt, hargs, ?_⟩
+        split at hrt
+        · rename_i hc
+          simp only [hc, if_true]
+          simp only [Bool.and_eq_true, Bool.not_eq_true', List.isEmpty_eq_false_iff] at hrt
+          exact hrt
+        · rename_i hc
+          simp only [hc, Bool.false_eq_true, if_false]
+          simpa using hrt
+
+/-- a fragment spread of an accepted selection set names a defined fragment whose type condition is a composite type that
+    can apply inside the parent type -/
+theorem accepted_spread (s : Schema) (op : Op) (fuel : Nat) (parent : String) (sels : List Sel)
+    (name : String) (dirs : List Dir)
+    (h : checkSels s op (fuel + 1) parent sels = true) (hm : Sel.spread name dirs ∈ sels) :
+    ∃ f ct, f ∈ op.frags ∧ f.name = name ∧ s.type? f.typeCond = some ct ∧ isComposite ct.kind = true ∧
+      spreadPossible s parent f.typeCond = true := by
+  simp only [checkSels] at h
+  split at h
+  · simp at h
+  · simp only [Bool.and_eq_true, List.all_eq_true] at h
+    have hsel := h.2 _ hm
+    simp only [Bool.and_eq_true] at hsel
+    have hf := hsel.2
+    split at hf
+    · rename_i f hfr
+      split at hf
+      · rename_i ct hct
+        simp only [Bool.and_eq_true] at hf
+        exact ⟨f, ct, List.mem_of_find?_eq_some hfr, by have := List.find?_some hfr; simpa using this, hct, hf.1, hf.2⟩
+      · simp at hf
+    · simp at hf
 
 end GqlVerif.Props.C04
